@@ -20,7 +20,9 @@
 //	PFX <pathid a> <pathid b>                                        strings.HasPrefix(a, b)
 //	PRANK <pathid> <rank>                                            position of the string in sort.Strings order
 //	SF <sfid> <quoted ssa function string>
-//	FN <fid> <sfid of Parent> <constructed> <nparams> <nfreevars>    one per SummaryGraph
+//	FN <fid> <sfid of Parent> <constructed> <nparams> <nfreevars> <IsPreSummarized>    one per SummaryGraph
+//	LB <node>                 the node has labelled marks (kind Param/FreeVar/CallNodeArg/CallNode/BoundVar/AccessGlobal and
+//	                          len(df.AccessPathsOfType(node.Type())) > 0): taint hasLabelledMarks, recomputed here
 //	FP <fid> <i> <node>      ParamNode of Parent.Params[i] (0 if none);  FV <fid> <i> <node>  likewise for free variables
 //	CS <fid> <callnode>...   Callsites;   RM <fid> <closurenode>...   ReferringMakeClosures
 //	N <id> P <fid> <idx> | F <fid> <idx> | A <fid> <callnode> <idx> | C <fid> <sfid callee> <fid calleeSummary> <instr> <strclass> <sumclass> <callee reachable>
@@ -190,6 +192,22 @@ func (d *dumper) cond(v ssa.Value, pos bool) int {
 	d.conds = append(d.conds, k)
 	d.condID[k] = len(d.conds)
 	return len(d.conds)
+}
+
+// hasLabels is the specification of taint.hasLabelledMarks used by the model: the node kinds that the intra-procedural
+// analysis tracks with one labelled mark per access path of their type, when the type has access paths.
+func hasLabels(n df.GraphNode) (res bool) {
+	defer func() {
+		if recover() != nil {
+			res = false
+		}
+	}()
+	switch n.(type) {
+	case *df.ParamNode, *df.FreeVarNode, *df.CallNodeArg, *df.CallNode, *df.BoundVarNode, *df.AccessGlobalNode:
+		t := n.Type()
+		return t != nil && len(df.AccessPathsOfType(t)) > 0
+	}
+	return false
 }
 
 func sumLess(p *ssa.Program, a, b *df.SummaryGraph) bool {
@@ -367,6 +385,9 @@ func (d *dumper) graphLines() []string {
 		if i := df.Instr(n); !isNil(i) {
 			nodeLines = append(nodeLines, fmt.Sprintf("IN %d %d", id, d.instr(i)))
 		}
+		if hasLabels(n) {
+			nodeLines = append(nodeLines, fmt.Sprintf("LB %d", id))
+		}
 		// out edges
 		type oe struct {
 			dst int
@@ -431,7 +452,7 @@ func (d *dumper) graphLines() []string {
 		if g.Parent != nil {
 			np, nf = len(g.Parent.Params), len(g.Parent.FreeVars)
 		}
-		fnLines = append(fnLines, fmt.Sprintf("FN %d %d %d %d %d", f, d.sf(g.Parent), c, np, nf))
+		fnLines = append(fnLines, fmt.Sprintf("FN %d %d %d %d %d %d", f, d.sf(g.Parent), c, np, nf, b2i(g.IsPreSummarized)))
 		if g.Parent != nil {
 			for k, sp := range g.Parent.Params {
 				fnLines = append(fnLines, fmt.Sprintf("FP %d %d %d", f, k, d.node(g.Params[sp])))
